@@ -1,6 +1,6 @@
 # replay.native_match -- run by /venv/bin/python: call the real TapeCassette matcher on concrete values
 import json, sys
-sys.path.insert(0, '/repo') if '/repo' not in sys.path else None
+sys.path.insert(0, __import__('os').environ.get('PYTHONPATH', '/repo').split(':')[0] or '/repo')
 from playback.tape_cassette import TapeCassette
 
 
